@@ -161,9 +161,16 @@ func (y *c04Sys) runTree(descs []c04Desc) (c04Result, *engine.Violation) {
 			// a user withdrawal executed inside the deposit's own hook: the recipient's signed tx
 			// withdraws the deposited amount straight back to L1
 			acc := y.w2.AK.GetAccount(c2, alice)
-			wmsg := opchildtypes.NewMsgInitiateTokenWithdrawal(alice.String(), c04Rcpt(d.Rcpt), sdk.NewCoin(l2d, amt))
+			hookMsgs := []sdk.Msg{opchildtypes.NewMsgInitiateTokenWithdrawal(alice.String(), c04Rcpt(d.Rcpt), sdk.NewCoin(l2d, amt))}
+			if amt.GT(math.OneInt()) {
+				// two withdrawals in one hook (1 and the rest): both must be announced
+				hookMsgs = []sdk.Msg{
+					opchildtypes.NewMsgInitiateTokenWithdrawal(alice.String(), c04Rcpt(d.Rcpt), sdk.NewCoin(l2d, math.OneInt())),
+					opchildtypes.NewMsgInitiateTokenWithdrawal(alice.String(), c04Rcpt(d.Rcpt), sdk.NewCoin(l2d, amt.SubRaw(1))),
+				}
+			}
 			key := world.SecpKey("alice")
-			data := signHookTx(y.w2, []sdk.Msg{wmsg}, key, key.PubKey(), acc.GetAccountNumber(), acc.GetSequence(), c2.ChainID())
+			data := signHookTx(y.w2, hookMsgs, key, key.PubKey(), acc.GetAccountNumber(), acc.GetSequence(), c2.ChainID())
 			res := y.w1.Deliver(c1, ophosttypes.NewMsgInitiateTokenDeposit(alice.String(), 1, alice.String(), sdk.NewCoin(d.Denom, amt), data))
 			r.transitions++
 			if !res.OK() {
@@ -182,8 +189,8 @@ func (y *c04Sys) runTree(descs []c04Desc) (c04Result, *engine.Violation) {
 				return r, v
 			}
 			// L2 accepted the withdrawal iff the tokens are gone again; then it must have been announced
-			if bal := y.w2.BK.GetBalance(c2, alice, l2d).Amount; bal.IsZero() && len(wds) == before {
-				return r, tagged(viol("recorded-withdrawal-is-claimable", "desc %d (%s): the hook's withdrawal burnt the deposit (supply %s, balance 0) but no withdrawal was announced, so it can never be claimed on L1", i, d, supplyAfter), "kind", "hook")
+			if bal := y.w2.BK.GetBalance(c2, alice, l2d).Amount; bal.IsZero() && len(wds) != before+len(hookMsgs) {
+				return r, tagged(viol("recorded-withdrawal-is-claimable", "desc %d (%s): the hook's %d withdrawals burnt the deposit (supply %s, balance 0) but %d were announced; the others can never be claimed on L1", i, d, len(hookMsgs), supplyAfter, len(wds)-before), "kind", "hook")
 			}
 		case "user":
 			// establish the denom pair through a real 1-unit deposit, then give the user the holding
@@ -356,7 +363,7 @@ func c04Run(rc *engine.RunCtx) *engine.Result {
 	res.Coverage["withdrawals_recorded"] = total.recorded
 	res.Coverage["withdrawals_claimed"] = total.claimed
 	res.Coverage["refused_at_entry_point"] = total.refusedAtEntry
-	res.Coverage["menu"] = map[string]any{"amounts": []string{"1", "2^63-1", "2^63", "2^64-1", "2^64", "2^64+1", "2^128"}, "denoms": []string{"uinit", "128-char denom", "ibc/<hash> with slash"}, "recipients": []string{"lower-case bech32", "upper-case bech32", "fresh account"}, "kinds": []string{"user withdrawal", "refund of a deposit with a malformed recipient", "user withdrawal executed inside the deposit's own hook"}, "exhaustive_tree_sizes": maxExh}
+	res.Coverage["menu"] = map[string]any{"amounts": []string{"1", "2^63-1", "2^63", "2^64-1", "2^64", "2^64+1", "2^128"}, "denoms": []string{"uinit", "128-char denom", "ibc/<hash> with slash"}, "recipients": []string{"lower-case bech32", "upper-case bech32", "fresh account"}, "kinds": []string{"user withdrawal", "refund of a deposit with a malformed recipient", "user withdrawals (one, or two for amounts above 1) executed inside the deposit's own hook"}, "exhaustive_tree_sizes": maxExh}
 	res.Coverage["oracle"] = "every withdrawal event L2 emits for a positive amount and a valid L1 recipient: after proposing the tree built by the independent builder and finalizing it, the L1 claim succeeds and pays exactly the recorded amount; a recorded amount that does not fit the leaf format is a violation (the entry points must refuse what can never be completed)"
 	res.Assumptions = []string{"user holdings above what one deposit carries are produced by minting on L2 and funding the escrow on L1 (several deposits can add up to any amount)"}
 	res.Require(total.claimed > 100, "only %d claims succeeded", total.claimed)
